@@ -78,21 +78,58 @@ def evJson : Ev → Json
 def sstStr : SSt → String
   | .unopened => "unopened" | .active => "active" | .stopped => "stopped" | .closed => "closed"
 
-/-- `["play", samples]` plays with the request's default chunk size, `["play", samples, cs]` with its own -/
-def parseCmd (dcs : Nat) (j : Json) : Except String Cmd := do
+/-- the options object of a play command: how the call was written (`null` / absent = omitted) -/
+def parseCall (j : Json) : Except String PlayCall := do
+  let optNat (k : String) : Except String (Option Nat) :=
+    match optField j k with
+    | some v => do pure (some (← getNat v))
+    | none => pure none
+  let dfmt ← match optField j "dfmt" with
+    | some v => do pure (some (← getStr v))
+    | none => pure none
+  pure { chunkSize := ← optNat "chunk_size", dfmt := dfmt, channels := ← optNat "channels",
+         rate := ← optNat "rate", device := ← optNat "device" }
+
+/-- `["play", samples]` plays with the request's default chunk size, `["play", samples, cs]` with its
+    own, `["play", samples, null, call]` / `["play", samples, cs, call]` as the call was written
+    (`call` = keyword arguments given; the chunk size of the model is `samplesPerChunk`) -/
+def parseCmdCall (dcs : Nat) (j : Json) : Except String (Cmd × Option PlayCall) := do
   let a ← getArr j
   match a with
-  | [Json.str "play", xs] => pure (.play (← getList getInt xs) dcs)
+  | [Json.str "play", xs] => pure (.play (← getList getInt xs) dcs, none)
   | [Json.str "play", xs, c] =>
     let c ← getNat c
     if c = 0 then throw "chunk size must be positive"
-    pure (.play (← getList getInt xs) c)
-  | [Json.str "pause", i] => pure (.ctl .pause (← getNat i))
-  | [Json.str "resume", i] => pure (.ctl .resume (← getNat i))
-  | [Json.str "stop", i] => pure (.ctl .stop (← getNat i))
-  | [Json.str "join", i] => pure (.join (← getNat i))
-  | [Json.str "close"] => pure .close
+    pure (.play (← getList getInt xs) c, none)
+  | [Json.str "play", xs, _, call] =>
+    let call ← parseCall call
+    let c := samplesPerChunk dcs call
+    if c = 0 then throw "chunk size must be positive"
+    pure (.play (← getList getInt xs) c, some call)
+  | [Json.str "pause", i] => pure (.ctl .pause (← getNat i), none)
+  | [Json.str "resume", i] => pure (.ctl .resume (← getNat i), none)
+  | [Json.str "stop", i] => pure (.ctl .stop (← getNat i), none)
+  | [Json.str "join", i] => pure (.join (← getNat i), none)
+  | [Json.str "close"] => pure (.close, none)
   | _ => throw s!"C17: bad command {j.compress}"
+
+def parseCmd (dcs : Nat) (j : Json) : Except String Cmd := do
+  pure (← parseCmdCall dcs j).1
+
+def openArgsJson (o : OpenArgs) : Json := Json.mkObj [
+  ("format", natToJson o.format), ("channels", natToJson o.channels), ("rate", natToJson o.rate),
+  ("frames_per_buffer", natToJson o.framesPerBuffer), ("output", Json.bool o.output),
+  ("output_device_index", match o.device with | some d => natToJson d | none => Json.null)]
+
+/-- spec side of the call shapes: for every play command, what `pa.open` must be asked and the
+    frames per write (`null` for commands written in the old form) -/
+def opensJson (dcs : Nat) (apiOut : Option Nat) (cmds : List (Cmd × Option PlayCall)) : Json :=
+  Json.arr <| cmds.filterMap fun (c, call) =>
+    match c, call with
+    | .play _ _, some call => some (Json.mkObj [("open", openArgsJson (openArgs dcs apiOut call)),
+        ("frames", natToJson (frames dcs call)), ("samples", natToJson (samplesPerChunk dcs call))])
+    | .play _ _, none => some Json.null
+    | _, _ => none
 
 /-- replay with the per-step record `chosen|pending…`; stops at a choice that is not enabled -/
 def replay (cfg : Cfg) : State → List Nat → List String → State × List String × Option Nat
@@ -135,7 +172,11 @@ def handleFine (j : Json) : Except String Json := do
   let dieFixed ← getBool (← field j "dieFixed")
   let cs ← getNat (← field j "cs")
   if cs = 0 then throw "cs must be positive"
-  let script ← getList (parseCmd cs) (← field j "script")
+  let cmds ← getList (parseCmdCall cs) (← field j "script")
+  let script := cmds.map (·.1)
+  let apiOut ← match optField j "apiOut" with
+    | some v => do pure (some (← getNat v))
+    | none => pure none
   let fails ← getList getBool (← field j "fails")
   let sched ← getList getNat (← field j "schedule")
   let fc : FCfg := { cfg := { wait := wait, fixed := fixed, fails := fails }, dieFixed := dieFixed }
@@ -161,7 +202,8 @@ def handleFine (j : Json) : Except String Json := do
       ("threads", nats s.threads), ("perr", Json.bool s.perr),
       ("closedAfter", Json.bool (closedAfter s)), ("noneAlive", Json.bool (noneAlive s))]),
     ("spec", Json.mkObj [
-      ("chunks", arr (fun (a : List Int × Nat) => arr (arr intToJson) (chunksSpec a.2 a.1)) audios)])]
+      ("chunks", arr (fun (a : List Int × Nat) => arr (arr intToJson) (chunksSpec a.2 a.1)) audios),
+      ("opens", opensJson cs apiOut cmds)])]
 
 def handle (entry : String) (j : Json) : Except String Json := do
   match entry with
@@ -171,7 +213,11 @@ def handle (entry : String) (j : Json) : Except String Json := do
     let fixed ← getBool (← field j "fixed")
     let cs ← getNat (← field j "cs")
     if cs = 0 then throw "cs must be positive"
-    let script ← getList (parseCmd cs) (← field j "script")
+    let cmds ← getList (parseCmdCall cs) (← field j "script")
+    let script := cmds.map (·.1)
+    let apiOut ← match optField j "apiOut" with
+      | some v => do pure (some (← getNat v))
+      | none => pure none
     let sched ← getList getNat (← field j "schedule")
     let fails ← match optField j "fails" with
       | some f => getList getBool f
@@ -195,7 +241,8 @@ def handle (entry : String) (j : Json) : Except String Json := do
         ("threads", nats s.threads), ("perr", Json.bool s.perr),
         ("closedAfter", Json.bool (closedAfter s)), ("noneAlive", Json.bool (noneAlive s))]),
       ("spec", Json.mkObj [
-        ("chunks", arr (fun (a : List Int × Nat) => arr (arr intToJson) (chunksSpec a.2 a.1)) audios)])]
+        ("chunks", arr (fun (a : List Int × Nat) => arr (arr intToJson) (chunksSpec a.2 a.1)) audios),
+      ("opens", opensJson cs apiOut cmds)])]
   | _ => throw s!"C17: unknown entry {entry}"
 
 end ALV.Driver.C17
